@@ -26,6 +26,9 @@ mutual
     | tdelta (d : Int) : Same (.tdelta d) (.tdelta d)
     | cdelta (d : Int) : Same (.cdelta d) (.cdelta d)
     | fdt (d : Int) : Same (.fdt d) (.fdt d)
+    | ftd (d : Int) : Same (.ftd d) (.ftd d)
+    | sub (c : Nat) {xs ys : List EVal} : SameL xs ys → Same (.sub c xs) (.sub c ys)
+    | index {i j : List Cell} : LabelsSame i j → Same (.index i) (.index j)
     | nat : Same .nat .nat
     | list {xs ys : List EVal} : SameL xs ys → Same (.list xs) (.list ys)
     | tuple {xs ys : List EVal} : SameL xs ys → Same (.tuple xs) (.tuple ys)
@@ -147,6 +150,27 @@ theorem eq_iff_same_aux : ∀ (n : Nat) (a b : EVal), sizeOf a ≤ n → a.keysO
       case fdt y =>
         simp only [eq, EVal.norm, eqN, beq_iff_eq]
         exact ⟨fun e => e ▸ Same.fdt x, fun hc => by cases hc; rfl⟩
+    | ftd x =>
+      cases b <;> try (simp [eq, EVal.norm, eqN]; intro hc; cases hc; done)
+      case ftd y =>
+        simp only [eq, EVal.norm, eqN, beq_iff_eq]
+        exact ⟨fun e => e ▸ Same.ftd x, fun hc => by cases hc; rfl⟩
+    | index i =>
+      cases b <;> try (simp [eq, EVal.norm, eqN]; intro hc; cases hc; done)
+      case index j =>
+        simp only [eq, EVal.norm, eqN]
+        rw [idxEq_iff_same]
+        exact ⟨Same.index, fun hc => by cases hc; assumption⟩
+    | sub c xs =>
+      cases b <;> try (simp [eq, EVal.norm, eqN]; intro hc; cases hc; done)
+      case sub d ys =>
+        simp at h
+        simp only [EVal.keysOk] at ka kb
+        simp only [eq, EVal.norm, eqN, Bool.and_eq_true, beq_iff_eq]
+        rw [eq_list_all2, hlist xs ys (by omega) ka kb]
+        constructor
+        · rintro ⟨rfl, h2⟩; exact Same.sub c h2
+        · intro hc; cases hc; exact ⟨rfl, by assumption⟩
     | nat =>
       cases b <;> try (simp [eq, EVal.norm, eqN]; intro hc; cases hc; done)
       case nat => simp only [eq, EVal.norm, eqN]; exact ⟨fun _ => Same.nat, fun _ => trivial⟩
